@@ -442,3 +442,116 @@ def tags_c14(h, obs):
                 elif not rc.ok and rc.ret == "fee":
                     t.add("fee-failure")
     return t
+
+
+# ------------------------------------------------------------------------------------------ C07
+
+def parse_dump(o):
+    if " ## " not in o:
+        return None
+    d = {}
+    for p in o.split(" ## ", 1)[1].split():
+        if "=" in p:
+            k, v = p.rsplit("=", 1)
+            d[k] = v
+    return d
+
+
+def key_class(k):
+    """contract/key with ids replaced: a stable fingerprint component"""
+    c, _, rest = k.partition("/")
+    rest = re.sub(r"0x[0-9a-fA-F]{40}", "ADDR", rest)
+    rest = re.sub(r"1356:[\w:]+-1356:[\w:]+-\d+", "IBTPID", rest)
+    rest = re.sub(r"1356:[\w]+:[\w]+", "SVC", rest)
+    rest = re.sub(r"\d+", "N", rest)
+    return c + "/" + rest[:40]
+
+
+def mon_c07(h, obs):
+    hits = []
+    steps = parse_trace(h, obs)
+    for i, st in enumerate(steps):
+        if st[0] == "block" and st[1].ok:
+            b = st[1]
+            # (a) a failed transaction is never announced in the delivery sets
+            listed = {v[0] for vs in b.counter.values() for v in vs}
+            for j, (tx, rc) in enumerate(zip(b.txs, b.rcs)):
+                if not rc.ok and j in listed:
+                    hits.append(Hit(f"C07/failed-tx-listed/{rc.ret}", f"tx {j} of block {b.h} failed ({rc.ret}) but is listed in the delivery set",
+                                    detail=b.raw))
+                if not rc.ok and tx.kind == "ibtp" and tx.id:
+                    for c, ids in list(b.timeout.items()) + list(b.multi.items()):
+                        pass
+            if len(b.rcs) != len(b.txs):
+                hits.append(Hit("C07/receipt-count", f"block {b.h}: {len(b.txs)} txs, {len(b.rcs)} receipts", detail=b.raw))
+            # (b) all-failed block bracketed by dumps: only nonce/fee effects, unless a timeout fired in that block
+            if i > 0 and i + 1 < len(steps) and steps[i - 1][0] == "q" and steps[i - 1][1] == "dump" and steps[i + 1][0] == "q" and steps[i + 1][1] == "dump":
+                d0, d1 = parse_dump(steps[i - 1][3]), parse_dump(steps[i + 1][3])
+                if d0 is None or d1 is None:
+                    continue
+                if all(not rc.ok for rc in b.rcs) and not b.rawtimeout and not b.timeout:
+                    senders = set()
+                    for tx in b.txs:
+                        senders.add(tx.signer if tx.kind != "xfer" else tx.frm)
+                    for k in sorted(set(d0) | set(d1)):
+                        if d0.get(k) == d1.get(k):
+                            continue
+                        if k.startswith("bal/adm"):
+                            continue
+                        if k.startswith("bal/") or k.startswith("nonce/"):
+                            who = k.split("/")[1]
+                            if who in senders:
+                                if k.startswith("nonce/") and int(d1[k]) - int(d0[k]) > sum(1 for tx in b.txs if (tx.signer if tx.kind != "xfer" else tx.frm) == who):
+                                    hits.append(Hit("C07/nonce-overcount", f"{k}: {d0[k]} -> {d1[k]}", detail=b.raw))
+                                if k.startswith("bal/") and int(d1[k]) > int(d0[k]):
+                                    hits.append(Hit("C07/failed-tx-credited-sender", f"{k}: {d0[k]} -> {d1[k]}", detail=b.raw))
+                                continue
+                        hits.append(Hit(f"C07/failed-tx-changed-state/{key_class(k)}",
+                                        f"block {b.h} (all receipts failed) changed {k}: {d0.get(k)} -> {d1.get(k)}", detail=b.op))
+        # (c) view executions between two dumps change nothing
+        if st[0] == "q" and st[1] == "dump" and i + 1 < len(steps) and steps[i + 1][0] == "q" and steps[i + 1][1] == "view":
+            j = i + 1
+            while j < len(steps) and steps[j][0] == "q" and steps[j][1] == "view":
+                j += 1
+            if j < len(steps) and steps[j][0] == "q" and steps[j][1] == "dump":
+                d0, d1 = parse_dump(st[3]), parse_dump(steps[j][3])
+                if d0 is not None and d1 is not None and d0 != d1:
+                    ks = [k for k in sorted(set(d0) | set(d1)) if d0.get(k) != d1.get(k)]
+                    hits.append(Hit(f"C07/view-changed-state/{key_class(ks[0])}", f"read-only executions changed {ks[:4]}"))
+    return hits
+
+
+def tags_c07(h, obs):
+    t = set()
+    steps = parse_trace(h, obs)
+    for i, st in enumerate(steps):
+        if st[0] == "block" and st[1].ok:
+            for tx, rc in zip(st[1].txs, st[1].rcs):
+                if not rc.ok:
+                    t.add(f"fail:{tx.kind}:{rc.ret}")
+            if all(not rc.ok for rc in st[1].rcs) and st[1].rcs and i > 0 and steps[i - 1][0] == "q" and steps[i - 1][1] == "dump":
+                t.add("bracketed-all-failed")
+        if st[0] == "q" and st[1] == "view":
+            t.add("view:" + st[3].split(" ## ")[-1][:3])
+    return t
+
+
+# ------------------------------------------------------------------------------------------ model domain mask
+
+def mask_unmodelled(impl, model):
+    """The exec model prints `F:unmodelled:0` for a contract call outside its op language (governance, store, ...).
+    Such a receipt is blanked on both sides; everything else of the block line is still compared."""
+    oi, om = [], []
+    for a, b in zip(impl, model):
+        ma, mb = re.match(r"^(h=\d+ rc=\[)(.*?)(\].*)$", a or ""), re.match(r"^(h=\d+ rc=\[)(.*?)(\].*)$", b or "")
+        if ma and mb and "F:unmodelled:0" in mb.group(2):
+            ra, rb = ma.group(2).split(" "), mb.group(2).split(" ")
+            if len(ra) == len(rb):
+                for i, x in enumerate(rb):
+                    if x == "F:unmodelled:0":
+                        ra[i] = rb[i] = "?"
+                a = ma.group(1) + " ".join(ra) + ma.group(3)
+                b = mb.group(1) + " ".join(rb) + mb.group(3)
+        oi.append(a)
+        om.append(b)
+    return oi + list(impl[len(oi):]), om + list(model[len(om):])
